@@ -305,4 +305,72 @@ export class Ref {
   strictMember(t, v) {
     return this.member(t, v, true);
   }
+
+  // C03 (projection): null when every key at every object position of `data` is declared by SOME
+  // object type the type offers at that position (any union branch, any intersection member, or
+  // admitted by an index signature) — deliberately generous, so that merged union results are not
+  // over-demanded; otherwise the path of the first key nobody declares.
+  undeclaredPath(t, data, path = "$", depth = 0) {
+    if (depth > 60) return null;
+    const alts = [];
+    const seen = new Set();
+    const flat = (x) => {
+      if (x.c === "ref") {
+        if (seen.has(x.key)) return;
+        seen.add(x.key);
+        const d = this.env.defs.get(x.key);
+        if (d) flat(d);
+      } else if (x.c === "union" || x.c === "inter") x.ts.forEach(flat);
+      else alts.push(x);
+    };
+    flat(t);
+    if (alts.some((a) => a.c === "any" || a.c === "anyobj")) return null;
+    if (data === null || typeof data !== "object") return null;
+    if (Array.isArray(data)) {
+      for (let i = 0; i < data.length; i++) {
+        const ts = [];
+        for (const a of alts) {
+          if (a.c === "arr") ts.push(a.el);
+          if (a.c === "tuple") ts.push(i < a.items.length ? a.items[i] : a.rest ?? { c: "never" });
+        }
+        if (!ts.length) continue;
+        const f = this.undeclaredPath({ c: "union", ts }, data[i], `${path}[${i}]`, depth + 1);
+        if (f) return f;
+      }
+      return null;
+    }
+    if (data instanceof Map) {
+      const ks = alts.filter((a) => a.c === "map");
+      if (!ks.length) return null;
+      for (const [k, x] of data) {
+        const f = this.undeclaredPath({ c: "union", ts: ks.map((a) => a.key) }, k, `${path}.key`, depth + 1) || this.undeclaredPath({ c: "union", ts: ks.map((a) => a.val) }, x, `${path}.value`, depth + 1);
+        if (f) return f;
+      }
+      return null;
+    }
+    if (data instanceof Set) {
+      const ks = alts.filter((a) => a.c === "set");
+      if (!ks.length) return null;
+      for (const x of data) {
+        const f = this.undeclaredPath({ c: "union", ts: ks.map((a) => a.el) }, x, `${path}.item`, depth + 1);
+        if (f) return f;
+      }
+      return null;
+    }
+    if (data instanceof Date || ArrayBuffer.isView(data)) return null;
+    const objs = alts.filter((a) => a.c === "obj");
+    if (!objs.length) return null;
+    for (const k of Object.keys(data)) {
+      const ts = [];
+      for (const o of objs) {
+        const p = o.props.find((x) => x.name === k);
+        if (p) ts.push(p.t);
+        else if (o.index && this.keyMember(o.index.key, k) === Y) ts.push(o.index.val);
+      }
+      if (!ts.length) return `${path}.${k}`;
+      const f = this.undeclaredPath({ c: "union", ts }, data[k], `${path}.${k}`, depth + 1);
+      if (f) return f;
+    }
+    return null;
+  }
 }
